@@ -32,7 +32,7 @@ variable {P : Params}
 
 theorem minWire_le_ser (h : P.valid = true) (v : TVal) : P.minWireOf v.tag ≤ (ser v).length := by
   simp only [Params.valid, Bool.and_eq_true] at h
-  have hm := h.1.1.1.1.1.1.2
+  have hm := h.1.1.1.1.1.1.1.2
   simp only [Params.validMinWire, List.all_eq_true, Bool.and_eq_true, decide_eq_true_eq] at hm
   have := (hm _ (tag_mem_codes v)).2
   have := minSer_le v
@@ -65,7 +65,7 @@ theorem entries_count_fits (h : P.valid = true) (kt vt : Nat) :
 
 theorem skipFixed_eq (h : P.valid = true) (w : Nat) (hw : w < 128) : P.skipFixedOf w = wireFixed w := by
   simp only [Params.valid, Bool.and_eq_true] at h
-  have hm := h.1.1.1.1.2
+  have hm := h.1.1.1.1.1.2
   simp only [Params.validSkip, Bool.and_eq_true, List.all_eq_true, beq_iff_eq, List.mem_range] at hm
   have := hm.2 w hw
   rw [this]
@@ -84,7 +84,7 @@ theorem skipFixed_eq (h : P.valid = true) (w : Nat) (hw : w < 128) : P.skipFixed
 
 theorem skipDepth_eq (h : P.valid = true) : P.skipDepth = 64 := by
   simp only [Params.valid, Bool.and_eq_true] at h
-  have hm := h.1.1.1.1.2
+  have hm := h.1.1.1.1.1.2
   simp only [Params.validSkip, Bool.and_eq_true, beq_iff_eq] at hm
   exact hm.1.2
 end
